@@ -3,6 +3,8 @@ symbolically from their MIR with symbolic binary64 breakpoints and arguments, fo
 CBMC finishes.  The piece type is Poly0 whose `evaluate` is stubbed by an uninterpreted function EV(piece value, x), so
 "which piece was evaluated at which argument" is decided by congruence, with no floating-point arithmetic involved.
 """
+import re
+
 import z3
 
 import api
@@ -215,7 +217,8 @@ def evaluate_v_run(e, n, q, non_decreasing=False, real=False):
         src = Counting([dom.sym("x%d" % i) for i in range(q)])
         args = [Ref(Cell(pw)), src]
         f = e.program.find_method("evaluate_v", args)
-        out_iter = itp.call_function(f, args)
+        from interp import into_iter
+        out_iter = into_iter(itp.call_function(f, args))  # std adaptor chain or a crate type implementing Iterator
         outs, pulled = [], [src.pulled]
         for k in range(q + 1):
             r = out_iter.next(itp)
@@ -347,7 +350,9 @@ def arbitrary_run(e, k, piece_failures=True):
     orig_do_call = it.do_call
 
     def do_call(callee, args):
-        if "as Arbitrary" in callee and callee.rstrip().endswith("::arbitrary"):
+        is_arb = ("as Arbitrary" in callee and callee.rstrip().endswith("::arbitrary")) or \
+            re.match(r"^(?:arbitrary::)?Unstructured::<.*>::arbitrary::<.*>$", callee.strip(), re.S) is not None
+        if is_arb:
             if "Vec<f64>" in callee:
                 return ResV(True, VecV([dom.sym("end%d" % i) for i in range(k)]))
             # piece type
